@@ -245,7 +245,7 @@ def _note_array_and_tracks(b, rng):
     from fractions import Fraction
     def ticks(t, ppq, mpq):
         """the exact nearest tick (both neighbours when the time lies half-way up to float rounding)"""
-        x = Fraction(10**6 * ppq) * Fraction(t) / mpq
+        x = Fraction(10**6 * int(ppq)) * Fraction(float(t)) / int(mpq)
         lo = x.numerator // x.denominator
         if abs(x - lo - Fraction(1, 2)) < Fraction(1, 10**5):
             return {lo, lo + 1}
@@ -275,9 +275,39 @@ def _note_array_and_tracks(b, rng):
             b.case("note_array/seconds_ticks_agree_and_durations_to_sounding_end", good, case, what)
             ok, back = b.guard("note_array/from_note_array", case, lambda: pf.PerformedPart.from_note_array(na))
             if ok:
+                # the rebuilt part has its own clock (ppq/mpq): ITS note array agrees with itself under that clock
+                ok3, na2 = b.guard("note_array/no_exception", dict(case, of="the rebuilt part"), lambda: back.note_array())
+                if ok3:
+                    bad = None
+                    for row, n in zip(na2, back.notes):
+                        if int(row["onset_tick"]) not in ticks(n["note_on"], back.ppq, back.mpq):
+                            bad = bad or "rebuilt part (ppq %r, mpq %r): onset %r s is reported as tick %r, the nearest tick under its clock is %r" % (
+                                back.ppq, back.mpq, n["note_on"], int(row["onset_tick"]), sorted(ticks(n["note_on"], back.ppq, back.mpq)))
+                        if n["sound_off"] == n["note_off"]:
+                            allowed = {y - x for y in ticks(n["note_off"], back.ppq, back.mpq) for x in ticks(n["note_on"], back.ppq, back.mpq)}
+                            if int(row["duration_tick"]) not in allowed:
+                                bad = bad or "rebuilt part: duration_tick %r of %r..%r s, under its clock %r" % (int(row["duration_tick"]), n["note_on"], n["note_off"], sorted(allowed))
+                    b.case("note_array/seconds_ticks_agree_and_durations_to_sounding_end", bad is None, dict(case, of="the part rebuilt from the note array"), bad or "")
                 same = all(m["midi_pitch"] == n["midi_pitch"] and m["velocity"] == n["velocity"] and abs(m["note_on"] - n["note_on"]) < 1e-5 * (1 + abs(n["note_on"]))
                            and abs(m["sound_off"] - n["sound_off"]) < 1e-5 * (1 + abs(n["sound_off"])) for m, n in zip(back.notes, part.notes)) and len(back.notes) == len(part.notes)
                 b.case("note_array/rebuilt_part_same_pitches_velocities_onsets_sounding_ends", same, case, "round trip through the note array differs")
+    # the numeric type of the note times is the caller's: whole seconds given as Python or numpy integers, float32 values
+    import numpy as _np
+    for tname, conv in (("int", int), ("numpy.int64", _np.int64), ("numpy.int32", _np.int32), ("numpy.float32", _np.float32), ("numpy.float64", _np.float64)):
+        for notes, ctl, want in (([(60, 0, 1), (64, 1, 3), (60, 2, 4)], [(64, 0.5, 127), (64, 2.5, 0)], [2.0, 3.0, 4.0]),
+                                 ([(60, 0, 1), (67, 0, 2)], [(64, 0.25, 100), (64, 1.75, 10), (64, 1.9, 90), (64, 3.5, 0)], [1.75, 3.5]),
+                                 ([(60, 0, 1), (60, 3, 4)], [(64, 0.5, 127), (64, 4.5, 0)], [3.0, 4.5])):
+            nl = [dict(id="n%d" % i, midi_pitch=p, note_on=conv(on), note_off=conv(off), velocity=60 + i, track=0, channel=1) for i, (p, on, off) in enumerate(notes)]
+            cl = [dict(number=num, time=float(t), value=v, track=0, channel=0) for (num, t, v) in ctl]
+            case = {"notes": notes, "controls": ctl, "type_of_the_note_times": tname}
+            ok, part = b.guard("pedal/never_fails_on_valid_notes", case, lambda: pf.PerformedPart(nl, id="P", controls=cl))
+            if ok:
+                got = [float(n["sound_off"]) for n in part.notes]
+                b.case("pedal/sound_off_as_the_pedal_dictates", all(abs(g - w) < 1e-6 for g, w in zip(got, want)), case, "sounding ends %r, the pedal dictates %r" % (got, want))
+                ok2, _ = b.guard("pedal/setter_recomputes", case, lambda: setattr(part, "sustain_pedal_threshold", 64))
+                if ok2:
+                    got = [float(n["sound_off"]) for n in part.notes]
+                    b.case("pedal/setter_recomputes", all(abs(g - w) < 1e-6 for g, w in zip(got, want)), case, "after assigning the threshold again the sounding ends are %r, the pedal dictates %r" % (got, want))
     # track renumbering: unique across parts, parts not mixed
     for tracks in itertools.product([[0], [1], [0, 1], [3, 3], [2, 0]], repeat=2):
         pps = []
